@@ -621,7 +621,8 @@ def history_job(args, fs):
             out.update(ok=False, exception=type(e).__name__, message=str(e)[:300], traceback=traceback.format_exc()[-1500:])
         os.chdir(root)
         table = {}
-        out['xml'] = canonical(holder.get('xml', ''), table) if 'xml' in holder else None
+        # (the job directory differs between the history and the stand-alone lifetime: its path is not part of the result)
+        out['xml'] = canonical(holder.get('xml', '').replace(root, '<JOBDIR>'), table) if 'xml' in holder else None
         files = {}
         for rel in sorted(set(fs.writes[w0:])):
             if rel == name + '.tex':
@@ -633,7 +634,7 @@ def history_job(args, fs):
             try:
                 with lifetimes._real['open'](p, 'rb') as f:
                     data = f.read()
-                files[rel] = canonical(data.decode('utf-8', 'replace'), table)
+                files[rel] = canonical(data.decode('utf-8', 'replace').replace(root, '<JOBDIR>'), table)
             except Exception as e:
                 files[rel] = 'UNREADABLE:%s' % type(e).__name__
         out['files'] = files
